@@ -93,6 +93,24 @@ def wl_sign(ctx, config, scale=1.0):
         else:
             ctx.check(r.ret == 1 and r.b(1) == want, "schnorr_sign_custom:fixed_nonce_bytes", "sk=%s nd=%s want %s got %r" % (sk.hex(), nd.hex(), want.hex(), r), config)
 
+def wl_nonce_fn(ctx, config, scale=1.0):
+    """the exported BIP-340 nonce function called directly: TaggedHash(algo, (key XOR TaggedHash("BIP0340/aux", aux)) || pk || msg) for
+    the BIP's own tag (optimised midstate path), other tags of every length 0..40, aux present / absent; algo == NULL must fail"""
+    rng = ctx.rng
+    for it in range(int(ctx.n(200, 5000) * scale)):
+        key = pools.rbytes(rng, 32); pk = pools.rbytes(rng, 32); msg = pools.rbytes(rng, rng.choice((0, 1, 32, 33, 64, 100)))
+        algo = b"BIP0340/nonce" if it % 3 == 0 else (pools.rbytes(rng, it % 41) if it % 3 == 1 else b"BIP0340/nonce"[:rng.randrange(13)] + pools.rbytes(rng, rng.randrange(3)))
+        aux = pools.rbytes(rng, 32) if it % 2 else None
+        r = ctx.call("nonce_bip340", msg, key, pk, algo, aux, config=config)
+        if r is None: continue
+        ctx.ev("nonce_bip340", "algo_%s:aux%d" % ("bip340" if algo == b"BIP0340/nonce" else "len%d" % min(len(algo), 17), aux is not None), True, msg, key, pk, algo, aux or b'')
+        t = bytes(a ^ b for a, b in zip(key, tagged(b"BIP0340/aux", aux if aux is not None else bytes(32))))
+        want = tagged(algo, t + pk + msg)
+        if it % 9 == 0:
+            r0 = ctx.call("nonce_bip340", msg, key, pk, None, aux, config=config)
+            if r0 is not None: ctx.check(r0.ret == 0, "nonce_bip340:null_algo_accepted", repr(r0), config)
+        ctx.check(r.ret == 1 and r.b(1) == want, "nonce_bip340:bytes", "algo=%s aux=%s want %s got %r" % (algo.hex(), aux, want.hex(), r), config)
+
 def vcase(ctx, config, pk32, msg, sig, cls, nontrivial=True):
     xo = xonly(ctx, pk32, config)
     if xo is None: return
@@ -187,3 +205,4 @@ def run(ctx):
         scale = 1.0 if i == 0 else 0.25
         wl_sign(ctx, config, scale)
         wl_verify(ctx, config, scale)
+        wl_nonce_fn(ctx, config, scale)
